@@ -217,9 +217,35 @@ func (e *env) concCase(big bool) error {
 	if err := e.setDay(d); err != nil {
 		return err
 	}
-	nfam := 8 + rng.Intn(5)
-	for _, h := range rng.Perm(24)[:nfam] {
-		e.hours = append(e.hours, h)
+	if !big && rng.Intn(2) == 0 {
+		// several source STORES (days of one month), the same hours in each: equal family ids in the
+		// day stores, one target store, one target family per day (month type) / one shared (year type)
+		e.multi = true
+		tcm := timeutil.Interval(5 * min_).Calculator()
+		for tries := 0; len(e.days) < 3 && tries < 40; tries++ {
+			cand := d + int64(rng.Intn(9)) - 4
+			dup := cand < 0
+			for _, x := range e.days {
+				dup = dup || x.dayNo == cand
+			}
+			if dup || tcm.CalcSegmentTime(cand*day) != tcm.CalcSegmentTime(d*day) {
+				continue
+			}
+			if err := e.addDay(cand); err != nil {
+				return err
+			}
+		}
+		c.Branch("concurrent-multi-day")
+		for _, h := range rng.Perm(24)[:3+rng.Intn(2)] {
+			for di := range e.days {
+				e.hours = append(e.hours, di*100+h)
+			}
+		}
+	} else {
+		nfam := 8 + rng.Intn(5)
+		for _, h := range rng.Perm(24)[:nfam] {
+			e.hours = append(e.hours, h)
+		}
 	}
 	sort.Ints(e.hours)
 	for _, t := range e.tgts {
@@ -239,7 +265,7 @@ func (e *env) concCase(big bool) error {
 	for _, h := range e.hours {
 		b := mblock{metric: 1, start: 0, end: 359}
 		for sid := 1; sid <= nseries; sid++ {
-			for slot := (sid + h) % 7; slot < 360; slot += 7 + rng.Intn(40) {
+			for slot := (sid + h%100) % 7; slot < 360; slot += 7 + rng.Intn(40) {
 				b.cells = append(b.cells, cell{series: uint32(sid), field: 1, ftype: 1, slot: slot, val: int64(1 + rng.Intn(1000))})
 				if sid%3 == 0 {
 					b.cells = append(b.cells, cell{series: uint32(sid), field: 2, ftype: 3, slot: slot, val: int64(rng.Intn(100000))})
@@ -254,8 +280,20 @@ func (e *env) concCase(big bool) error {
 	e.mu.Lock()
 	e.cur, e.cutAt, e.imaged = nil, -1, false
 	e.mu.Unlock()
-	if err := kv.VerifForceRollupSync(e.srcStore); err != nil {
-		return err
+	if len(e.days) == 1 {
+		if err := kv.VerifForceRollupSync(e.srcStore); err != nil {
+			return err
+		}
+	} else {
+		// the real ForceRollup of every day store (each starts its families' jobs and returns), then wait
+		for di := range e.days {
+			e.days[di].store.ForceRollup()
+		}
+		for _, h := range e.hours {
+			if err := kv.VerifRollupSync(e.fams[h]); err != nil {
+				return err
+			}
+		}
 	}
 	e.mu.Lock()
 	recs := e.cur
